@@ -109,6 +109,13 @@ class Prop(PropBase):
             out.append("T 0 ; wr 5 104 101 97 100 58 ; %s ; wr 3 116 108 10" % blob(big))
             out.append("T 0 ; %s ; wr 2 65 66 ; %s ; wr 1 0 ; %s" % (blob(big), blob(big), blob(7)))
         out.append("T 0 ; we %s ; mv 3 4 ; %s ; er 0 ; %s ; we %s" % (e, blob(5000), blob(4096), e))
+        # running totals that land EXACTLY on 4096 / 8192 / 65536 / 131072 bytes at the end of a write (a staging buffer's fill
+        # counter at its limit), then more output
+        for piece, count in ((4096, 16), (32768, 2), (65535, 1), (8192, 8), (1024, 64), (65536, 2), (256, 256)):
+            ops = [blob(piece) for _ in range(count)]
+            if piece == 65535:
+                ops.append("wr 1 33")
+            out.append("T 0 ; " + " ; ".join(ops + ["wr 3 101 110 100"]))
         out.append("T 0 ; " + " ; ".join("wr 1 %d" % b for b in range(256)))
         n = 40 if tier == "quick" else 400
         for _ in range(n):
@@ -164,6 +171,20 @@ class Prop(PropBase):
         # … and with standard output redirected (dup2) half-way through the script: first half on the old pipe, rest on the new
         env_redirect = dict(env, VERIF_REDIRECT="?")
         runs += [(s_, env_redirect) for s_ in scripts[:30] if s_.count(";") >= 2 and len(s_) < 50000]
+        # … and with four threads, each with a channel and a terminal of its own, running the script at the same time: the
+        # order of their writes is the scheduler's, the multiset of bytes is not
+        env_threads = dict(env, VERIF_THREADS="4")
+        for s_ in [x for x in scripts[:40] if 200 < len(x) < 300000][:8]:
+            exp = expected.get(s_)
+            if not exp:
+                continue
+            for rep in range(3 if tier == "quick" else 10):
+                p = subprocess.run([child], input=(s_[1:].strip() + "\n").encode(), stdout=subprocess.PIPE, stderr=subprocess.PIPE, env=env_threads, timeout=120)
+                if p.returncode != 0 or len(p.stdout) != 4 * len(exp) or sorted(p.stdout) != sorted(exp * 4):
+                    failures.append({"what": "four threads with their own stdout channels: bytes lost, duplicated or altered on standard output",
+                                     "signature": "C14 stdout-differs", "lines": [s_], "stdout_len": len(p.stdout), "expected_len": 4 * len(exp),
+                                     "returncode": p.returncode, "stderr": p.stderr.decode("utf-8", "replace")[-300:]})
+                    break
         for s_, env_ in runs:
             body = s_[1:].strip()  # drop the kind letter
             if env_ is env_redirect:
